@@ -198,6 +198,8 @@ def freprs_for(s):
 # ---------------------------------------------------------------------------
 def impl_de(a):
     types = [dec_type(t) for t in a["types"]]
+    if a.get("sort"):
+        types = ConverterFactory.sort_types(types)
     try:
         v = converter.deserialize(a["s"], types, **dec_kw(a["kw"]))
     except ConverterError:
@@ -551,7 +553,31 @@ def exhaustive(alpha, maxlen):
             yield "".join(tup)
 
 
+def snan_hazard(c):
+    """Decimal('sNaN') == member_value raises decimal.InvalidOperation inside
+    EnumConverter._match_atomic (finding C05-enum-snan-leak); the model does not
+    cover signaling NaNs, so such cases are left out of the correspondence."""
+    def has_dec(m):
+        return m["t"] == "dec" or (m["t"] == "tuple" and any(x["t"] == "dec" for x in m["v"]))
+
+    if not any(isinstance(t, dict) and any(has_dec(m) for m in t["enum"]) for t in c["types"]):
+        return False
+    for tok in c["s"].split():
+        try:
+            if Decimal(tok).is_snan():
+                return True
+        except Exception:  # noqa: BLE001
+            pass
+    return False
+
+
 def gen_de(rng, tier):
+    for c in gen_de_all(rng, tier):
+        if not snan_hazard(c):
+            yield c
+
+
+def gen_de_all(rng, tier):
     quick = tier == "quick"
     num_types = ["int", "float", "Decimal", "bool"]
     # hand-picked, every numeric type on every numeric string (also padded)
@@ -637,13 +663,17 @@ def gen_de(rng, tier):
         for perm in itertools.permutations(sub):
             for s in pool:
                 yield de_case(s, list(perm), KW(format="base16", ns_map=[["xs", "http://www.w3.org/2001/XMLSchema"]]))
+                yield {**de_case(s, list(perm), KW(format="base16", ns_map=[["xs", "http://www.w3.org/2001/XMLSchema"]])), "sort": True}
     for _ in range(400 if quick else 8000):
         k = rng.randint(0, 5)
         types = [rng.choice(ATOM_TYPES + ["unregistered"]) for _ in range(k)]
         if rng.random() < 0.3:
             types.insert(rng.randint(0, len(types)), {"enum": rng.choice(ENUM_SETS)})
         s = rng.choice(pool + NUM_HAND + ENUM_STRINGS)
-        yield de_case(pad(rng, s), types, KW(format=rng.choice([None, "base16", "base64"]), ns_map=rng.choice(NS_MAPS)))
+        c = de_case(pad(rng, s), types, KW(format=rng.choice([None, "base16", "base64"]), ns_map=rng.choice(NS_MAPS)))
+        if rng.random() < 0.5:
+            c["sort"] = True
+        yield c
     # enums
     for members in ENUM_SETS:
         for s in ENUM_STRINGS:
@@ -1430,7 +1460,19 @@ def f_enum_ws():
     return back is not E.A, f"{s!r} -> {back!r}"
 
 
+def f_snan_leak():
+    E = Enum("E", [("A", Decimal("1.5"))])
+    try:
+        converter.deserialize("sNaN", [E])
+    except ConverterError:
+        return False, "ConverterError"
+    except Exception as e:  # noqa: BLE001
+        return True, f"converter.deserialize('sNaN', [E]) raises {type(e).__name__}, not ConverterError"
+    return False, "accepted"
+
+
 FINDINGS = {
+    "C05-enum-snan-leak": f_snan_leak,
     "C05-qname-default-ns": f_default_ns,
     "C05-uri-hyphen": f_uri_hyphen,
     "C05-ncname-unicode": f_ncname_marks,
